@@ -1,6 +1,7 @@
 package main
 
 import (
+	"strconv"
 	"os"
 	"crypto/sha256"
 	"fmt"
@@ -358,6 +359,16 @@ func flagDeclared(lines []string, flag string) bool {
 	return false
 }
 
+// autoTimeoutS is the solver limit for automatic invariant candidates (GOVC_AUTO_T overrides it for experiments).
+var autoTimeoutS = func() int {
+	if v := os.Getenv("GOVC_AUTO_T"); v != "" {
+		if n, err := strconv.Atoi(v); err == nil && n >= 1 {
+			return n
+		}
+	}
+	return 2
+}()
+
 func (u *Unit) solveAll(obls []*Obligation, active map[string]bool) {
 	var wg sync.WaitGroup
 	sem := make(chan struct{}, 6)
@@ -373,8 +384,8 @@ func (u *Unit) solveAll(obls []*Obligation, active map[string]bool) {
 			sem <- struct{}{}
 			defer func() { <-sem }()
 			to := u.eng.timeoutS
-			if o.Auto && to > 2 {
-				to = 2 // automatic candidates are optional: do not wait for them
+			if o.Auto && to > autoTimeoutS {
+				to = autoTimeoutS // automatic candidates are optional: do not wait long for them
 			}
 			// a goal that splits (conjuncts; one part per path into a join) gets a short first attempt as a whole:
 			// its parts are usually decided much faster than the whole
